@@ -67,6 +67,8 @@ trait Nn<T: Fl> {
     const NAME: &'static str;
     /// true when the structure evaluates `distance(data[i], query)` rather than `distance(query, data[i])`
     const DATA_FIRST: bool;
+    /// the structure prunes with triangle-inequality bounds (only then can a miss be a rounding effect)
+    const PRUNES: bool;
     fn knn(&self, q: &Vec<T>, k: usize) -> Result<Hits<'_, T>, Failed>;
     fn within(&self, q: &Vec<T>, r: T) -> Result<Hits<'_, T>, Failed>;
 }
@@ -74,6 +76,7 @@ trait Nn<T: Fl> {
 impl<T: Fl, D: Distance<Vec<T>, T>> Nn<T> for CoverTree<Vec<T>, T, D> {
     const NAME: &'static str = "covertree";
     const DATA_FIRST: bool = true;
+    const PRUNES: bool = true;
     fn knn(&self, q: &Vec<T>, k: usize) -> Result<Hits<'_, T>, Failed> {
         self.find(q, k)
     }
@@ -85,6 +88,7 @@ impl<T: Fl, D: Distance<Vec<T>, T>> Nn<T> for CoverTree<Vec<T>, T, D> {
 impl<T: Fl, D: Distance<Vec<T>, T>> Nn<T> for LinearKNNSearch<Vec<T>, T, D> {
     const NAME: &'static str = "linearsearch";
     const DATA_FIRST: bool = false;
+    const PRUNES: bool = false;
     fn knn(&self, q: &Vec<T>, k: usize) -> Result<Hits<'_, T>, Failed> {
         self.find(q, k)
     }
@@ -210,7 +214,7 @@ fn run_structure<T: Fl, S: Nn<T>>(cx: &Ctx<T>, s: &S, q: &Vec<T>, opts: &Opts, d
     };
     // a miss of the class "boundary-rounding" is keyed by that class instead of the data class
     let viol_r = |rounding: bool, op: &str, clause: &str, what: String| {
-        let class = if rounding { "boundary-rounding" } else { cx.class };
+        let class = if rounding && S::PRUNES { "boundary-rounding" } else { cx.class };
         mc::violation(format!("{}.{}:{}:{}", S::NAME, op, class, clause), format!("{}: {}", cx.show(), what));
     };
 
